@@ -341,6 +341,12 @@ def replay_failure(fe, res, f, outdir):
     write_replay(rp, f['inputs'], f['ufs'], spec['mode'])
     dbgflav = spec['flavour'] in ('dbg', 'dsan')
     tries = []
+    if kind == 'HANG':
+        exe, d = fe.native(spec['harness'], spec['inst'], tuple(NATIVE_FLAGS['rel']) + tuple(spec.get('extra', ())), spec.get('defs', ()), tag='rrel')
+        if exe is None:
+            return False, rp, 'native build failed: ' + first_error(d)
+        rc, out, err = run_native(exe, rp, timeout=20)
+        return (rc == -999), rp, f'[rel] native run {"did not finish within 20 s" if rc == -999 else "finished rc=%d" % rc} ' + out[-200:].replace('\n', ' / ')
     if kind == 'PRECISION-LOSS':
         exe, d = fe.native(spec['harness'], spec['inst'], tuple(NATIVE_FLAGS['rel']) + tuple(spec.get('extra', ())), spec.get('defs', ()), tag='rrel')
         if exe is None:
